@@ -549,11 +549,6 @@ Proof.
   eexists. split; [vm_compute; left; reflexivity|]. repeat split; vm_compute; reflexivity.
 Qed.
 
-Lemma redirect_location_ipv6_refuted :
-  redir_location [] (bs "[::1]:80") (bs "/x") = bs "https://::1/x" /\
-  redir_location (bs "8443") (bs "[::1]") (bs "/x") = bs "https://[[::1]]:8443/x".
-Proof. split; vm_compute; reflexivity. Qed.
-
 (* ------------------------------------------------------------------ the redirect handler *)
 Definition plain (s : bytes) : Prop := forall c, In c s -> c <> COLON /\ c <> LBR /\ c <> RBR.
 
@@ -620,34 +615,126 @@ Qed.
 
 Definition port_part (rport : bytes) : bytes := match rport with [] => [] | _ => COLON :: rport end.
 
-Lemma join_plain h rport : plain h -> rport <> [] ->
-  join_host_port h rport = h ++ port_part rport.
+Lemma has_prefix_app_self (x y : bytes) : has_prefix (x ++ y) x = true.
+Proof. induction x as [|c x IH]; [destruct y; reflexivity|]. simpl. rewrite N.eqb_refl. exact IH. Qed.
+
+Lemma has_suffix_app_self (a b : bytes) : has_suffix (a ++ b) b = true.
+Proof. unfold has_suffix. rewrite rev_app_distr. apply has_prefix_app_self. Qed.
+
+(* when SplitHostPort finds the port p behind h, exactly ":p" is dropped *)
+Lemma strip_port_go_some h x p :
+  split_host_port (h ++ COLON :: p) = Some (x, p) -> strip_port_go (h ++ COLON :: p) = h.
 Proof.
-  intros Hh Hr. unfold join_host_port, port_part.
-  rewrite (plain_contains h COLON Hh) by auto. destruct rport; [contradiction|reflexivity].
+  intros H. unfold strip_port_go. rewrite H, has_suffix_app_self.
+  replace (length (h ++ COLON :: p) - S (length p))%nat with (length h)
+    by (rewrite app_length; simpl; lia).
+  apply firstn_app_exact.
 Qed.
 
-(* For every host name h (no colon, no brackets), every port text p, every redirect port and every
-   request URI: the Location is https://h[:redirPort]uri — the Host's own port is dropped. *)
-Lemma redir_location_plain rport h uri :
-  plain h ->
+(* bracketed literals: [a] with no bracket inside a (colons allowed) *)
+Definition nobr (s : bytes) : Prop := forall c, In c s -> c <> LBR /\ c <> RBR.
+Definition bracketed (h : bytes) : Prop := exists a, h = LBR :: a ++ [RBR] /\ nobr a.
+(* a host as it appears in a Host header: a name / IPv4 address, or a bracketed IPv6 literal *)
+Definition host_token (h : bytes) : Prop := plain h \/ bracketed h.
+
+Lemma nobr_contains s c : nobr s -> (c = LBR \/ c = RBR) -> contains_byte c s = false.
+Proof.
+  intros Hp Hc. unfold contains_byte. destruct (existsb (N.eqb c) s) eqn:E; [|reflexivity].
+  apply existsb_exists in E as (x & Hx & Hcx). apply N.eqb_eq in Hcx. subst x.
+  destruct (Hp c Hx) as (H1 & H2). destruct Hc as [->| ->]; contradiction.
+Qed.
+
+Lemma index_byte_app c a r : contains_byte c a = false -> index_byte c (a ++ c :: r) = Some (length a).
+Proof.
+  unfold contains_byte. induction a as [|x a IH]; intros H; simpl.
+  - rewrite N.eqb_refl. reflexivity.
+  - simpl in H. apply orb_false_iff in H as [Hx Ha]. rewrite N.eqb_sym, Hx. rewrite (IH Ha). reflexivity.
+Qed.
+
+Lemma length_bracket (a : bytes) : length (LBR :: a ++ [RBR]) = S (S (length a)).
+Proof. simpl. rewrite app_length. simpl. lia. Qed.
+
+(* "[a]" carries no port *)
+Lemma split_host_port_bracket_none a : nobr a -> split_host_port (LBR :: a ++ [RBR]) = None.
+Proof.
+  intros Ha. unfold split_host_port.
+  destruct (last_index_byte COLON (LBR :: a ++ [RBR])) as [i|]; [|reflexivity].
+  change (LBR =? LBR) with true. cbv iota.
+  change (LBR :: a ++ [RBR]) with ((LBR :: a) ++ RBR :: []).
+  rewrite index_byte_app.
+  2:{ unfold contains_byte. simpl. change (RBR =? LBR) with false. simpl.
+      apply (nobr_contains a RBR Ha). auto. }
+  replace (length ((LBR :: a) ++ [RBR])) with (S (length (LBR :: a))) by (rewrite app_length; simpl; lia).
+  rewrite Nat.eqb_refl. reflexivity.
+Qed.
+
+(* "[a]:p" splits into the bare literal and the port *)
+Lemma split_host_port_bracket a p :
+  nobr a -> plain p -> split_host_port ((LBR :: a ++ [RBR]) ++ COLON :: p) = Some (a, p).
+Proof.
+  intros Ha Hp. unfold split_host_port.
+  rewrite last_index_app by (apply plain_contains; auto).
+  rewrite length_bracket.
+  assert (E : (LBR :: a ++ [RBR]) ++ COLON :: p = (LBR :: a) ++ RBR :: COLON :: p)
+    by (simpl; rewrite <- app_assoc; reflexivity).
+  rewrite E. cbn [app]. change (LBR =? LBR) with true. cbv iota.
+  change (LBR :: a ++ RBR :: COLON :: p) with ((LBR :: a) ++ RBR :: COLON :: p).
+  rewrite index_byte_app.
+  2:{ unfold contains_byte. simpl. change (RBR =? LBR) with false. simpl.
+      apply (nobr_contains a RBR Ha). auto. }
+  cbn [length].
+  replace (length ((LBR :: a) ++ RBR :: COLON :: p)) with (S (S (S (length a + length p))))
+    by (rewrite app_length; simpl; lia).
+  assert (N1 : Nat.eqb (S (S (length a))) (S (S (S (length a + length p)))) = false)
+    by (apply Nat.eqb_neq; lia).
+  rewrite N1, Nat.eqb_refl.
+  (* no '[' behind the first one *)
+  rewrite contains_byte_app. rewrite (nobr_contains a LBR Ha) by auto.
+  assert (CL : contains_byte LBR (RBR :: COLON :: p) = false).
+  { unfold contains_byte. simpl. change (LBR =? RBR) with false. change (LBR =? COLON) with false. simpl.
+    apply (plain_contains p LBR Hp). auto. }
+  rewrite CL. simpl orb. cbv iota.
+  (* no ']' behind the port's colon *)
+  assert (SK : skipn (S (S (length a))) ((LBR :: a) ++ RBR :: COLON :: p) = COLON :: p).
+  { change ((LBR :: a) ++ RBR :: COLON :: p) with (LBR :: (a ++ RBR :: COLON :: p)).
+    cbn [skipn]. apply skipn_app_cons. }
+  rewrite SK.
+  assert (CR : contains_byte RBR (COLON :: p) = false).
+  { unfold contains_byte. simpl. change (RBR =? COLON) with false. simpl. apply (plain_contains p RBR Hp). auto. }
+  rewrite CR.
+  replace (S (length a) - 1)%nat with (length a) by lia.
+  rewrite firstn_app_exact.
+  assert (SK2 : skipn (S (S (S (length a)))) ((LBR :: a) ++ RBR :: COLON :: p) = p).
+  { rewrite <- E. rewrite <- (length_bracket a). apply skipn_app_cons. }
+  rewrite SK2. reflexivity.
+Qed.
+
+Lemma strip_port_go_token h : host_token h -> strip_port_go h = h.
+Proof.
+  intros [Hh|(a & -> & Ha)]; unfold strip_port_go.
+  - rewrite (split_host_port_none h Hh). reflexivity.
+  - rewrite (split_host_port_bracket_none a Ha). reflexivity.
+Qed.
+
+Lemma strip_port_go_token_port h p : host_token h -> plain p -> strip_port_go (h ++ COLON :: p) = h.
+Proof.
+  intros [Hh|(a & -> & Ha)] Hp.
+  - exact (strip_port_go_some h h p (split_host_port_simple h p Hh Hp)).
+  - exact (strip_port_go_some _ a p (split_host_port_bracket a p Ha Hp)).
+Qed.
+
+(* For every host h — a name without colon or brackets, or a bracketed IPv6 literal —, every port
+   text p, every redirect port and every request URI: the Location is https://h[:redirPort]uri;
+   the Host's own port is dropped, the brackets are kept. *)
+Lemma redir_location_token rport h uri :
+  host_token h ->
   redir_location rport h uri = hex_escape_non_ascii (bs "https://" ++ h ++ port_part rport ++ uri).
-Proof.
-  intros Hh. unfold redir_location, strip_port_go. rewrite (split_host_port_none h Hh).
-  destruct rport as [|r0 r].
-  - reflexivity.
-  - rewrite join_plain by (auto; discriminate). rewrite <- app_assoc. reflexivity.
-Qed.
+Proof. intros Hh. unfold redir_location. rewrite (strip_port_go_token h Hh). reflexivity. Qed.
 
-Lemma redir_location_with_port rport h p uri :
-  plain h -> plain p ->
+Lemma redir_location_token_port rport h p uri :
+  host_token h -> plain p ->
   redir_location rport (h ++ COLON :: p) uri = hex_escape_non_ascii (bs "https://" ++ h ++ port_part rport ++ uri).
-Proof.
-  intros Hh Hp. unfold redir_location, strip_port_go. rewrite (split_host_port_simple h p Hh Hp).
-  destruct rport as [|r0 r].
-  - reflexivity.
-  - rewrite join_plain by (auto; discriminate). rewrite <- app_assoc. reflexivity.
-Qed.
+Proof. intros Hh Hp. unfold redir_location. rewrite (strip_port_go_token_port h p Hh Hp). reflexivity. Qed.
 
 Lemma hex_escape_ascii s : (forall c, In c s -> c < 128) -> hex_escape_non_ascii s = s.
 Proof.
@@ -734,10 +821,10 @@ Lemma redirects_complete_partial all j c : nth_error all j = Some c ->
     exists r, In r extra /\ host r = host c /\ port r = P80.
 Proof. intros Hn H1 H2 H3 H4. apply (redirects_complete all j c Hn). repeat split; assumption. Qed.
 
-Lemma redir_location_partial rport h p uri : plain h -> plain p ->
+Lemma redir_location_full rport h p uri : host_token h -> plain p ->
   redir_location rport h uri = hex_escape_non_ascii (bs "https://" ++ h ++ port_part rport ++ uri) /\
   redir_location rport (h ++ COLON :: p) uri = hex_escape_non_ascii (bs "https://" ++ h ++ port_part rport ++ uri).
-Proof. intros. split; [apply redir_location_plain|apply redir_location_with_port]; assumption. Qed.
+Proof. intros. split; [apply redir_location_token|apply redir_location_token_port]; assumption. Qed.
 
 (* ------------------------------------------------------------------ at most one redirect site per host *)
 Lemma other_has_nth l : forall o k i x h p,
